@@ -338,7 +338,11 @@ PROPS = {
                     nontrivial=lambda req, A, B: len(req.split("\t")[3]) >= 6),
                dict(kind="crash", quick=12000, thorough=400000, corr=["r", "fu"], oracle_const=[("r", "[oe]{3}"), ("fu", "[oe-]*"), ("x", "ok")],
                     nontrivial=lambda req, A, B: len(req.split("\t")[3]) >= 6),
-               dict(kind="stack", quick=256, thorough=256, single=True, no_model=True, corr=[], oracle_const=[("r", "ok")], nontrivial=always)],
+               dict(kind="stack", quick=256, thorough=256, single=True, no_model=True, corr=[], oracle_const=[("r", "ok")], nontrivial=always),
+               # the value type: every operator on every pair of kinds / boundary values, and literal-rich value
+               # expressions (constant folding runs the operators inside the parser): never a panic
+               dict(kind="valopx", quick=72012, thorough=72012, corr=["r"], oracle_const=[("r", "(?!PANIC).*")], norm=val_norm, nontrivial=always),
+               dict(kind="valexpr", quick=12000, thorough=400000, corr=["p", "r"], oracle_const=[("r", "(?!PANIC).*"), ("p", "(?!PANIC).*")], norm=valexpr_norm, nontrivial=always)],
     ),
     "C16": dict(
         level="proof",
